@@ -15,6 +15,7 @@ From Gen Require Import M_base M_Angle M_Epoch M_Moon.
 From Proofs.C15 Require Import C15_angle C15_fdefs.
 From Proofs.C15 Require C15_p_moon_phase_new C15_p_moon_phase_first C15_p_moon_phase_full C15_p_moon_phase_last.
 From Proofs.C15 Require Import C15_phase.
+From Proofs.C15 Require C15_d_moon_phase_new C15_d_moon_phase_full.
 Import ListNotations.
 Open Scope R_scope.
 
@@ -49,9 +50,24 @@ Theorem C15_phase_spacing : forall n : Z,
   (win (IZR n + Rlit 75 (-2)) -> win (IZR (n + 1) + Rlit 75 (-2)) -> Rabs (r_last (n + 1) - r_last n - Bs) <= 2 * C15_p_moon_phase_last.C).
 Proof. exact phase_spacing. Qed.
 
+(* consecutive new moons (and consecutive full moons) are between 29.2 and 29.9 days apart, for every index k with
+   k and k+1 in the window -41 <= k/1236.85 <= 21: term-by-term difference bound (C15_d_moon_phase_*.v, written by
+   mkdiff.py): each of the 25 periodic terms c E^p sin(th) changes by at most |c| Emax^p 2|sin((th'-th)/2)| + |c| eps,
+   th'-th from the advance of M, M', F, Omega per lunation (29.105.., 385.816.., 390.670.., -1.563.. deg, +-0.01);
+   sum 0.3136 d; the 14 planetary terms by their amplitude (0.0026 d); mean-phase polynomial 1e-4 d.
+   (The quarters really vary more: 29.18 .. 29.93 d observed; for them only C15_phase_spacing is proved.) *)
+Theorem C15_new_moon_spacing : forall k : R, C15_d_moon_phase_new.win k -> C15_d_moon_phase_new.win (k + 1) ->
+  292 / 10 <= C15_p_moon_phase_new.v_jde_2 (k + 1) - C15_p_moon_phase_new.v_jde_2 k <= 299 / 10.
+Proof. exact C15_d_moon_phase_new.step_days. Qed.
+Theorem C15_full_moon_spacing : forall k : R, C15_d_moon_phase_full.win k -> C15_d_moon_phase_full.win (k + 1) ->
+  292 / 10 <= C15_p_moon_phase_full.v_jde_2 (k + 1) - C15_p_moon_phase_full.v_jde_2 k <= 299 / 10.
+Proof. exact C15_d_moon_phase_full.step_days. Qed.
+
 Redirect "C15_moon_phase_new.assumptions" Print Assumptions C15_moon_phase_new.
 Redirect "C15_moon_phase_first.assumptions" Print Assumptions C15_moon_phase_first.
 Redirect "C15_moon_phase_full.assumptions" Print Assumptions C15_moon_phase_full.
 Redirect "C15_moon_phase_last.assumptions" Print Assumptions C15_moon_phase_last.
 Redirect "C15_phase_order.assumptions" Print Assumptions C15_phase_order.
 Redirect "C15_phase_spacing.assumptions" Print Assumptions C15_phase_spacing.
+Redirect "C15_new_moon_spacing.assumptions" Print Assumptions C15_new_moon_spacing.
+Redirect "C15_full_moon_spacing.assumptions" Print Assumptions C15_full_moon_spacing.
